@@ -53,7 +53,7 @@ the generated data, and write(decode(write(m))) == write(m); messages with a PDU
 second relation. Non-trivial = an attribute value containing an XML-special character or a list of >= 2 elements. \
 wellformed: batches of 200 such messages (drawn from the same strategy with a generator seeded from seed and batch index) through expat; every checked message counts as non-trivial; expat-available: one probe document (a missing python3/expat makes the run inconclusive). parsers: arbitrary \
 bytes, /repo/test-data/ca XML files and written messages under 0..6 XML-aware mutations into all six decoders; oracle = \
-no panic (accepted values are additionally written and walked).";
+no panic (accepted values are additionally written and walked). Writers: every message is also written with write_xml into a writer that takes 1-8 octets per call and through to_xml_string / to_xml_vec / to_xml_bytes; a claimed success must deliver exactly the octets write_xml puts into a Vec (an error from write_xml is accepted: base64 content goes through base64's EncoderWriter, which documents WriteZero under short writes).";
 
 //------------ plain-data specs ---------------------------------------------------
 
@@ -665,6 +665,68 @@ impl Built {
         v
     }
 
+    /// The same document through the other public writers - `write_xml` into a
+    /// writer that takes a few octets per call (a socket, a compressor), the
+    /// `to_xml_*` conveniences - must be the very octets `write_xml` puts into a
+    /// `Vec`; `write_xml` may report an error instead, it may not lose octets.
+    pub fn check_writers(&self, xml: &[u8]) -> CheckResult {
+        struct Short {
+            out: Vec<u8>,
+            calls: usize,
+        }
+        impl std::io::Write for Short {
+            fn write(&mut self, buf: &[u8]) -> std::io::Result<usize> {
+                const TAKE: [usize; 7] = [1, 3, 2, 5, 1, 8, 4];
+                let n = buf.len().min(TAKE[self.calls % TAKE.len()]);
+                self.calls += 1;
+                self.out.extend_from_slice(&buf[..n]);
+                Ok(n)
+            }
+            fn flush(&mut self) -> std::io::Result<()> {
+                Ok(())
+            }
+        }
+        let mut w = Short { out: Vec::new(), calls: 0 };
+        let r = no_panic("write_xml (short writes)", || match self {
+            Built::Prov(m) => m.write_xml(&mut w),
+            Built::Pub(m) => m.write_xml(&mut w),
+            Built::Child(m) => m.write_xml(&mut w),
+            Built::Parent(m) => m.write_xml(&mut w),
+            Built::Publisher(m) => m.write_xml(&mut w),
+            Built::Repository(m) => m.write_xml(&mut w),
+        })?;
+        // An error is a report, not a loss: base64 content goes through
+        // base64::write::EncoderWriter, which documents that write_all on it may fail with
+        // WriteZero when the writer below takes short writes. Only a claimed success is held
+        // to the octets.
+        if r.is_err() {
+            return Ok(());
+        }
+        if w.out != xml {
+            let at = w.out.iter().zip(xml.iter()).position(|(a, b)| a != b).unwrap_or(w.out.len().min(xml.len()));
+            return Err(Fail::sig(
+                "c11:writers-differ",
+                format!(
+                    "write_xml delivers {} octets to a writer taking short writes and {} to a Vec; they differ from octet {}: {:?} vs {:?}",
+                    w.out.len(), xml.len(), at,
+                    String::from_utf8_lossy(&w.out[at.saturating_sub(20)..(at + 30).min(w.out.len())]),
+                    String::from_utf8_lossy(&xml[at.saturating_sub(20)..(at + 30).min(xml.len())])
+                ),
+            ));
+        }
+        let (s, v): (String, Vec<u8>) = no_panic("to_xml_*", || match self {
+            Built::Prov(m) => (m.to_xml_string(), m.to_xml_bytes().to_vec()),
+            Built::Pub(m) => (m.to_xml_string(), m.to_xml_bytes().to_vec()),
+            Built::Child(m) => (m.to_xml_string(), m.to_xml_vec()),
+            Built::Parent(m) => (m.to_xml_string(), m.to_xml_vec()),
+            Built::Publisher(m) => (m.to_xml_string(), m.to_xml_vec()),
+            Built::Repository(m) => (m.to_xml_string(), m.to_xml_vec()),
+        })?;
+        ensure_sig!(s.as_bytes() == xml && v == xml, "c11:writers-differ",
+            "to_xml_string ({} octets) / to_xml_vec|bytes ({} octets) differ from write_xml ({} octets)", s.len(), v.len(), xml.len());
+        Ok(())
+    }
+
     /// Decodes `bytes` with the decoder belonging to this kind of message.
     pub fn decode_like(&self, bytes: &[u8]) -> Result<Built, String> {
         Ok(match self {
@@ -837,6 +899,7 @@ fn run_roundtrip(m: &Msg, obs: &mut Obs) -> CheckResult {
     obs.nontrivial_if(t.special || t.list2);
     let built = build(m)?;
     let xml = built.write();
+    built.check_writers(&xml)?;
     let decoded = match built.decode_like(&xml) {
         Ok(d) => d,
         Err(e) => {
